@@ -27,9 +27,8 @@ VARIABLES l, bad,
           drops,    \* <<entry, ordinal, reason>>: an undelivered group left a node's pipeline for good
           hwmSeen,  \* [Node -> SUBSET Nat] every value the node's hwm has had
           bvals,    \* values broadcast so far
-          unsent,   \* [Node -> <<>> | <<key, groups>>] batch held by a leader loop when it exited
           lastOK    \* [Node -> Nat] key of the last successful send
-tvars == <<vars, l, bad, pb, ord, allg, drops, hwmSeen, bvals, unsent, lastOK>>
+tvars == <<vars, l, bad, pb, ord, allg, drops, hwmSeen, bvals, lastOK>>
 
 Ev == Trace[l]
 Is(e) == l <= Len(Trace) /\ Trace[l].ev = e
@@ -72,7 +71,7 @@ Frame(ch) ==
   /\ IF "unsent" \in ch THEN TRUE ELSE UNCHANGED unsent
   /\ IF "lastOK" \in ch THEN TRUE ELSE UNCHANGED lastOK
   /\ IF "bad" \in ch THEN TRUE ELSE UNCHANGED bad
-  /\ UNCHANGED <<hch, ordOK, flips, restarts, snaps, downs>>
+  /\ UNCHANGED <<hch, ordOK, flips, restarts, snaps, downs, sig, want, isl, stop, mwait>>
 
 Fresh == /\ applied' = [n \in Node |-> 0] /\ inq' = [n \in Node |-> <<>>] /\ batch' = [n \in Node |-> <<>>]
          /\ fifo' = [n \in Node |-> <<>>] /\ highKey' = [n \in Node |-> 0] /\ startHigh' = [n \in Node |-> 0]
@@ -84,10 +83,10 @@ Fresh == /\ applied' = [n \in Node |-> 0] /\ inq' = [n \in Node |-> <<>>] /\ bat
 
 TInit == /\ Init /\ l = 1 /\ TLCSet(1, 0) /\ TLCSet(2, {}) /\ bad = {}
          /\ pb = [n \in Node |-> <<>>] /\ ord = [n \in Node |-> 0] /\ allg = {} /\ drops = {}
-         /\ hwmSeen = [n \in Node |-> {0}] /\ bvals = {} /\ unsent = [n \in Node |-> <<>>] /\ lastOK = [n \in Node |-> 0]
+         /\ hwmSeen = [n \in Node |-> {0}] /\ bvals = {} /\ lastOK = [n \in Node |-> 0]
 
-TReset == /\ Is("reset") /\ Step /\ Fresh /\ UNCHANGED <<bad, hch, ordOK, flips, restarts, snaps, downs>>
-TNote == /\ (Is("note") \/ Is("cdc.prune")) /\ Step /\ Frame({})
+TReset == /\ Is("reset") /\ Step /\ Fresh /\ UNCHANGED <<bad, hch, ordOK, flips, restarts, snaps, downs, sig, want, isl, stop, mwait>>
+TNote == /\ (Is("note") \/ Is("cdc.prune") \/ Is("c.flap")) /\ Step /\ Frame({})
 
 (* ---- FSM goroutine: Reset(index) per log entry, one group per commit with row changes ---- *)
 TEntry == /\ Is("cdcs.reset") /\ Step
@@ -102,7 +101,7 @@ TCommit == /\ Is("cdcs.commit") /\ Step
 
 (* ---- writeToBatcher ---- *)
 (* the hwm it compared with is read without synchronisation: the value before or after a concurrent change *)
-NextHwm(n) == LET ks == {k \in (l + 1)..(IF l + 8 < Len(Trace) THEN l + 8 ELSE Len(Trace)) :
+NextHwm(n) == LET ks == {k \in (l + 1)..(IF l + 60 < Len(Trace) THEN l + 60 ELSE Len(Trace)) :
                              Trace[k].ev = "cdc.hwm" /\ Trace[k].inst = n}
               IN IF ks = {} THEN hwm[n] ELSE Trace[MinS(ks)].v
 Plausible(n) == hwmSeen[n] \cup {NextHwm(n)}
@@ -256,8 +255,8 @@ TSnap == /\ Is("c.snap") /\ Step
          /\ Frame({"bad", "snapIdx"})
 (* quiescent, endpoint up, one stable leader: every group of the committed log must have been delivered *)
 TFinal == /\ Is("c.final") /\ Step
-          /\ LET want == {<<Ev.groups[x][1], Ev.groups[x][2]>> : x \in 1..Len(Ev.groups)}
-                 lost == want \ DeliveredIds
+          /\ LET wanted == {<<Ev.groups[x][1], Ev.groups[x][2]>> : x \in 1..Len(Ev.groups)}
+                 lost == wanted \ DeliveredIds
                  \* a node that leads again, still holds the batch its earlier leader loop did not send, and never sent it
                  held(x) == \E n \in lead : /\ unsent[n] # <<>> /\ unsent[n][1] > hwm[n]
                                              /\ \E g \in Range(unsent[n][2]) : Id(g) = x
